@@ -196,6 +196,9 @@ def _as_delimited_keywords(delimited_data_format):
         "skipinitialspace": delimited_data_format.skip_initial_space,
         "strict": True,
     }
+    if delimited_data_format.line_delimiter != data.ANY:
+        # Used when writing; when reading, any line delimiter is accepted.
+        result["lineterminator"] = delimited_data_format.line_delimiter
     return result
 
 
